@@ -31,7 +31,8 @@ fn nets(specs: &[GenSpec]) -> Vec<Net> {
 
 fn ksp_algos(yens: bool, tier: Tier) -> Vec<(Algo, Option<usize>)> {
     let ks: Vec<usize> = tier.pick(vec![1, 2, 3], vec![1, 2, 3, 4]);
-    let sims: Vec<Option<Sim>> = vec![None, Some(Sim::AcceptAll), Some(Sim::EdgeCos(0.3)), Some(Sim::EdgeCos(0.99)), Some(Sim::DistCos(0.5))];
+    // thresholds at and beyond 1 are legal configurations: nothing is "too similar" any more, but the returned routes must still be distinct
+    let sims: Vec<Option<Sim>> = vec![None, Some(Sim::AcceptAll), Some(Sim::EdgeCos(0.3)), Some(Sim::EdgeCos(0.99)), Some(Sim::DistCos(0.5)), Some(Sim::EdgeCos(1.0)), Some(Sim::DistCos(1.5))];
     let terms: Vec<Option<KTerm>> = tier.pick(vec![None, Some(KTerm::Factor(2))], vec![None, Some(KTerm::Exact), Some(KTerm::MaxIter(5)), Some(KTerm::Factor(2))]);
     let unders: Vec<Algo> = tier.pick(vec![Algo::Dijkstra], vec![Algo::Dijkstra, Algo::AStar(Some(1.0))]);
     let mut out = vec![];
@@ -295,7 +296,7 @@ fn check_accept_all(net: &Net, k: usize, st: &mut Stats) {
     let mut scratch = Stats::new();
     let base_default = check_case(&mk(None), &mut scratch);
     let base_explicit = check_case(&mk(Some(Sim::AcceptAll)), &mut scratch);
-    for sim in [Sim::EdgeCos(0.3), Sim::EdgeCos(0.99), Sim::DistCos(0.5), Sim::DistCos(0.99)] {
+    for sim in [Sim::EdgeCos(0.3), Sim::EdgeCos(0.99), Sim::DistCos(0.5), Sim::DistCos(0.99), Sim::EdgeCos(1.0), Sim::EdgeCos(1.5), Sim::DistCos(1.0)] {
         st.evaluations += 1;
         st.transitions += 1;
         let with = check_case(&mk(Some(sim.clone())), &mut scratch);
